@@ -239,6 +239,36 @@ def check(tier: str) -> Report:
         if ci % 9973 == 0:
             samples.append({"classifier": which, "abstract_exception": x, "allowed": case["allowed"],
                             "table": case["impl"]})
+    # optional-library classifiers on builtin / mixed exception types (their libraries are absent:
+    # they must be default_classifier)
+    from redress import errors as _errs
+
+    def _mk(name, bases, **attrs):
+        e = type(name, bases, {})("boom")
+        for k, v in attrs.items():
+            setattr(e, k, v)
+        return e
+    extras = [BrokenPipeError(), ConnectionError("x"), ConnectionResetError(), TimeoutError(), OSError(5, "io"),
+              _mk("PeerGone", (ConnectionError,)), _mk("Throttled", (ConnectionError, _errs.RateLimitError)),
+              _mk("Gone", (ConnectionError, _errs.PermanentError)), _mk("Slow", (TimeoutError,), status=404),
+              _mk("Refused", (ConnectionError,), status=401), _mk("Busy", (ConnectionError,), code=429),
+              _mk("Down", (BrokenPipeError,), status_code=503), _mk("Odd", (OSError,), status=409),
+              KeyError("k"), ValueError("v"), ExceptionGroup("g", [ValueError("v")])]
+    for exc in extras:
+        base = default_classifier(exc)
+        for oname, ofn in optional.items():
+            evaluations += 1
+            try:
+                o2 = ofn(exc)
+            except BaseException as err:  # noqa: BLE001
+                rep.add_violation("C19:classifier-raises", f"C19/{oname}/raises/{type(err).__name__}",
+                                  {"classifier": oname, "exception": repr(exc), "raised": repr(err)})
+                continue
+            if o2 is not base:
+                rep.add_violation("C19:optional-classifier-differs-from-default",
+                                  f"C19/{oname}/differs-from-default",
+                                  {"classifier": oname, "exception": f"{type(exc).__mro__}", "attrs": srepr(vars(exc)),
+                                   "default": base.name, "returned": getattr(o2, "name", repr(o2))})
     if drift:
         rep.drift.append(f"{drift} classifications differ from the implementation-shaped table of "
                          f"Classify.tla but stay inside the allowed sets")
